@@ -140,12 +140,16 @@ func (m *meter) int64ObservableInstrument(id Instrument, callbacks []metric.Int6
 	}
 	return m.int64ObservableInsts.Lookup(key, func() (int64Observable, error) {
 		inst := newInt64Observable(m, id.Kind, id.Name, id.Description, id.Unit)
+		var errs error
 		for _, insert := range m.int64Resolver.inserters {
 			// Connect the measure functions for instruments in this pipeline with the
 			// callbacks for this pipeline.
 			in, err := insert.Instrument(id, insert.readerDefaultAggregation(id.Kind))
 			if err != nil {
-				return inst, err
+				// As for synchronous instruments, an error (e.g. one view that
+				// cannot be honored) does not invalidate the measure functions of
+				// the other views, nor the remaining readers.
+				errs = errors.Join(errs, err)
 			}
 			// Drop aggregation
 			if len(in) == 0 {
@@ -163,6 +167,9 @@ func (m *meter) int64ObservableInstrument(id Instrument, callbacks []metric.Int6
 				fn := cback
 				insert.addCallback(func(ctx context.Context) error { return fn(ctx, inst) })
 			}
+		}
+		if errs != nil {
+			return inst, errs
 		}
 		return inst, validateInstrumentName(id.Name)
 	})
@@ -322,12 +329,16 @@ func (m *meter) float64ObservableInstrument(
 	}
 	return m.float64ObservableInsts.Lookup(key, func() (float64Observable, error) {
 		inst := newFloat64Observable(m, id.Kind, id.Name, id.Description, id.Unit)
+		var errs error
 		for _, insert := range m.float64Resolver.inserters {
 			// Connect the measure functions for instruments in this pipeline with the
 			// callbacks for this pipeline.
 			in, err := insert.Instrument(id, insert.readerDefaultAggregation(id.Kind))
 			if err != nil {
-				return inst, err
+				// As for synchronous instruments, an error (e.g. one view that
+				// cannot be honored) does not invalidate the measure functions of
+				// the other views, nor the remaining readers.
+				errs = errors.Join(errs, err)
 			}
 			// Drop aggregation
 			if len(in) == 0 {
@@ -345,6 +356,9 @@ func (m *meter) float64ObservableInstrument(
 				fn := cback
 				insert.addCallback(func(ctx context.Context) error { return fn(ctx, inst) })
 			}
+		}
+		if errs != nil {
+			return inst, errs
 		}
 		return inst, validateInstrumentName(id.Name)
 	})
